@@ -25,7 +25,7 @@ enum Pair { HS_SPHERE, SPHERE_SPHERE, HS_ELLIPSOID, HS_BRICK, HS_MESH, SPHERE_ME
 const char* pairName[] = {"halfspace-sphere", "sphere-sphere", "halfspace-ellipsoid", "halfspace-brick", "halfspace-mesh", "sphere-mesh", "mesh-mesh", "sphere-ellipsoid", "ellipsoid-ellipsoid"};
 
 struct Shape {      // 0 halfspace, 1 sphere, 2 ellipsoid, 3 brick, 4 mesh
-    int type = 0; double r = 1; Vec3 rad = Vec3(1); std::shared_ptr<ContactGeometry> geo; GenMesh gm; std::vector<V3> A, B, C; double L = 1; std::string desc;
+    int type = 0; double r = 1; Vec3 rad = Vec3(1); std::shared_ptr<ContactGeometry> geo; GenMesh gm; std::vector<V3> A, B, C; std::vector<std::array<int,3> > FV; std::vector<V3> VL; double L = 1; std::string desc;
     const ContactGeometry& g() const { return *geo; }
     double size() const { return type == 1 ? r : type == 2 || type == 3 ? std::max(rad[0], std::max(rad[1], rad[2])) : type == 4 ? L : 1; }
     LD support(V3 d) const {       // support function h(d) of the convex shapes, d unit in the shape frame
@@ -38,6 +38,27 @@ struct Shape {      // 0 halfspace, 1 sphere, 2 ellipsoid, 3 brick, 4 mesh
     V3 outwardNormal(V3 p) const { V3 g = type == 1 ? p : V3{p.x/((LD)rad[0]*rad[0]), p.y/((LD)rad[1]*rad[1]), p.z/((LD)rad[2]*rad[2])}; return (1 / norm(g)) * g; }
 };
 
+void finishMesh(Shape& s) {     // build the TriangleMesh (vertex/index constructor) and the brute-force arrays from the library's own accessors
+    Array_<Vec3> V(s.gm.V.begin(), s.gm.V.end()); Array_<int> I; for (auto& t : s.gm.tris()) for (int k = 0; k < 3; ++k) I.push_back(t[k]);
+    auto* tm = new ContactGeometry::TriangleMesh(V, I); s.geo.reset(tm); s.L = 0; for (auto& v : s.gm.V) s.L = std::max(s.L, (double)v.norm());
+    for (int i = 0; i < tm->getNumVertices(); ++i) s.VL.push_back(toL(tm->getVertexPosition(i)));
+    for (int f = 0; f < tm->getNumFaces(); ++f) { std::array<int,3> ix = {tm->getFaceVertex(f, 0), tm->getFaceVertex(f, 1), tm->getFaceVertex(f, 2)}; s.FV.push_back(ix); s.A.push_back(s.VL[ix[0]]); s.B.push_back(s.VL[ix[1]]); s.C.push_back(s.VL[ix[2]]); }
+}
+// Finely tessellated closed mesh for the deep mesh/mesh cases: octasphere subdivided 4x (2048 faces) or icosphere 3x (1280 -> not used: < 2000),
+// nonuniform scale 0.6..1 per axis, <= 4 % radial noise, own rotation baked into the vertices, so no two cases share the mesh.
+Shape makeFineMesh(pbt::Reader& g, double& radius) {
+    Shape s; s.type = 4; radius = g.logreal(0.2, 5); double noise = g.chance(1, 2) ? g.uniform(0, 0.04) : 0; uint32_t seed = g.w(); Rng rng(seed); s.gm = makeBase(1, 4, 0, 0, rng, noise);
+    double sc[3] = {g.uniform(0.6, 1), g.uniform(0.6, 1), g.uniform(0.6, 1)}; double u[3]; g.unit3(u); double ang = g.angle(); Rotation R(ang, UnitVec3(u[0], u[1], u[2]));
+    for (auto& v : s.gm.V) v = R * (radius * Vec3(v[0] * sc[0], v[1] * sc[1], v[2] * sc[2])); if (signedVolume(s.gm) < 0) for (auto& f : s.gm.F) std::reverse(f.begin(), f.end());
+    finishMesh(s); std::ostringstream o; o.precision(17); o << "FineMesh(octasphere4 faces=" << s.A.size() << " radius=" << radius << " scale=(" << sc[0] << "," << sc[1] << "," << sc[2] << ") noise=" << noise << " seed=" << seed << " rot=" << ang << "@(" << u[0] << "," << u[1] << "," << u[2] << "))"; s.desc = o.str(); return s;
+}
+Shape makeCoarseMesh(pbt::Reader& g, double fineRadius) {     // the other mesh: 80..512 faces, 1.5..2.5 x the fine radius
+    Shape s; s.type = 4; int kind = g.pick(4); double base = fineRadius * g.uniform(1.5, 2.5); uint32_t seed = g.w(); Rng rng(seed); double noise = g.chance(1, 2) ? g.uniform(0, 0.1) : 0;
+    s.gm = kind == 0 ? makeBase(1, 3, 0, 0, rng, noise) : kind == 1 ? makeBase(1, 2, 0, 0, rng, noise) : kind == 2 ? makeBase(2, 2, 0, 0, rng, noise) : makeBase(3, 2, 2, 2, rng, noise);
+    for (auto& v : s.gm.V) v = base * v; if (signedVolume(s.gm) < 0) for (auto& f : s.gm.F) std::reverse(f.begin(), f.end());
+    finishMesh(s); std::ostringstream o; o.precision(17); o << "Mesh(" << s.gm.kind << " faces=" << s.A.size() << " size=" << base << " noise=" << noise << " seed=" << seed << ")"; s.desc = o.str(); return s;
+}
+
 Shape makeShape(int type, pbt::Reader& g, int maxAspect) {
     Shape s; s.type = type; std::ostringstream o; o.precision(17);
     double base = g.logreal(0.05, 20);
@@ -48,9 +69,7 @@ Shape makeShape(int type, pbt::Reader& g, int maxAspect) {
     else { int kind = g.pick(4), res = g.pick(64), a = g.pick(64), b = g.pick(64); if (kind == 1) res %= 3; if (kind == 2) res %= 2; if (kind == 3) { res %= 3; a %= 3; b %= 3; }
         double noise = g.chance(1, 2) ? g.uniform(0, 0.35) : 0; uint32_t seed = g.w(); Rng rng(seed); s.gm = makeBase(kind, res, a, b, rng, noise); double sq = g.chance(1, 3) ? g.logreal(0.2, 1) : 1;
         for (auto& v : s.gm.V) v = base * Vec3(v[0], v[1] * sq, v[2]); if (signedVolume(s.gm) < 0) for (auto& f : s.gm.F) std::reverse(f.begin(), f.end());
-        Array_<Vec3> V(s.gm.V.begin(), s.gm.V.end()); Array_<int> I; for (auto& t : s.gm.tris()) for (int k = 0; k < 3; ++k) I.push_back(t[k]);
-        auto* tm = new ContactGeometry::TriangleMesh(V, I); s.geo.reset(tm); s.L = 0; for (auto& v : s.gm.V) s.L = std::max(s.L, (double)v.norm());
-        for (int f = 0; f < tm->getNumFaces(); ++f) { s.A.push_back(toL(tm->getVertexPosition(tm->getFaceVertex(f, 0)))); s.B.push_back(toL(tm->getVertexPosition(tm->getFaceVertex(f, 1)))); s.C.push_back(toL(tm->getVertexPosition(tm->getFaceVertex(f, 2)))); }
+        finishMesh(s);
         o << "Mesh(" << s.gm.kind << " faces=" << s.A.size() << " size=" << base << " noise=" << noise << " seed=" << seed << " ysquash=" << sq << ")"; }
     s.desc = o.str(); return s;
 }
@@ -148,7 +167,10 @@ void property(const pbt::Tape& t, pbt::Ctx& ctx) {
     pbt::Reader g(t[0]); PairSetup ps; ps.pair = (Pair)g.pick(NPAIR);
     static const int T1[] = {0, 1, 0, 0, 0, 1, 4, 1, 2}, T2[] = {1, 1, 2, 3, 4, 4, 4, 2, 2};
     const bool implicitPair = ps.pair == SPHERE_ELLIPSOID || ps.pair == ELLIPSOID_ELLIPSOID;
-    ps.s1 = makeShape(T1[ps.pair], g, implicitPair ? 4 : 20); ps.s2 = makeShape(T2[ps.pair], g, implicitPair ? 4 : 20);
+    // 1 case in 48 (word 31 of segment 0; does not shift the meaning of the other words): deep mesh/mesh contact with a finely tessellated mesh
+    const bool fineCase = !t[0].empty() && t[0].size() > 31 && t[0][31] % 48u == 1u; bool fineIsS2 = true; double fineRadius = 1;
+    if (fineCase) { ps.pair = MESH_MESH; pbt::Reader gf(t[0]); gf.skip(1); fineIsS2 = !gf.boolean(); Shape fm = makeFineMesh(gf, fineRadius), cm = makeCoarseMesh(gf, fineRadius); if (fineIsS2) { ps.s1 = cm; ps.s2 = fm; } else { ps.s1 = fm; ps.s2 = cm; } }
+    else { ps.s1 = makeShape(T1[ps.pair], g, implicitPair ? 4 : 20); ps.s2 = makeShape(T2[ps.pair], g, implicitPair ? 4 : 20); }
     const Shape& S1 = ps.s1; const Shape& S2 = ps.s2;
     switch (ps.pair) {
         case HS_SPHERE: ps.own.reset(new ContactTracker::HalfSpaceSphere()); break; case SPHERE_SPHERE: ps.own.reset(new ContactTracker::SphereSphere()); break;
